@@ -1795,3 +1795,17 @@ Proof.
   destruct (_ >? 2); [exact I|]. apply bind_nofuel; [unfold id_of_ptr; destruct (_ >=? _); exact I|intros root].
   destruct (_ =? 78); [destruct (beq _ _); exact I|exact I].
 Qed.
+
+(* the full-strength statement, and its failure for the code before the repairs *)
+Definition C13_full (c : fixes) : Prop := forall bs n, walk_safe (walk c n bs).
+Theorem full_refuted : ~ C13_full legacy.
+Proof.
+  intros H. specialize (H wit_oobw 5%nat).
+  assert (E : walk_events (walk legacy 5 wit_oobw) <> [] /\ last (walk_events (walk legacy 5 wit_oobw)) EvFuel = EvG (OOBW 1))
+    by (vm_compute; split; [discriminate|reflexivity]).
+  destruct (walk legacy 5 wit_oobw) as [o|root evs]; cbn [walk_events walk_safe] in *; [destruct E as [E _]; congruence|].
+  destruct E as [Hne El]. clear Hne. revert El. induction H as [|e l He Hl IH]; cbn [last]; [discriminate|].
+  destruct l; [intros ->; exact He|exact IH].
+Qed.
+Theorem full_repaired : C13_full repaired.
+Proof. intros bs n. apply walk_repaired_safe. Qed.
